@@ -48,6 +48,11 @@ def put(m, k, v):
 
 # ---- hooks ----------------------------------------------------------------------------------------
 def _binop(I, op, a, b):
+    if isinstance(op, (ast.Add, ast.Sub)) and is_z3(a) and I.sort_of(a) == 'OptDepth':
+        a = I.coerce(a, 'Depth')          # an int depth (None raises TypeError)
+    if isinstance(op, ast.Add) and is_z3(a) and I.sort_of(a) == 'Depth':
+        n = U.acc('Depth', 'Fin', 'n')(a)
+        return z3.If(U.is_('Depth', 'Inf', a), a, U.ctor('Depth', 'Fin')(n + I.coerce(b, 'Int')))
     if isinstance(op, ast.Sub) and is_z3(a) and I.sort_of(a) == 'Depth':
         # inf - 1 == inf ; n - 1
         D = U.sort('Depth')
@@ -72,6 +77,8 @@ _interp.BUILTINS.setdefault('type', lambda I, args, kwargs, node: ('opaque', 'ty
 def _new_set(I):
     s = I.fresh('SetRef', 'newset')
     I.assume(I.call_spec(C.specs['fresh_set'], [s], {}))
+    if 'newvisited_' in I.env:
+        I.env['newvisited_'] = s          # ghost of python_to_sdocs: the set created for this call
     return s
 
 
@@ -128,7 +135,10 @@ def _construct(I, args, kwargs):
     I.env['__newctx'] = self0
     node = ast.parse('f(__newctx)').body[0].value          # so that the modified self is written back to a variable
     I.call_contract(_init, [self0] + list(args), kwargs, node)
-    return I.env.pop('__newctx')
+    ctx = I.env.pop('__newctx')
+    if 'newuserctx_' in I.env:
+        I.env['newuserctx_'] = U.rget('Ctx', 'user_ctx', ctx)      # ghost of python_to_sdocs: the dict the constructor made
+    return ctx
 
 
 U.class_hooks = {'PrettyContext': _construct}
@@ -194,6 +204,167 @@ _interp.BUILTINS['map_truthy_'] = _b_map_truthy
 U.method_hooks = {
     ('Ctx', '_replace'): lambda I, obj, args, kwargs, node: I.call_contract(_rep, [obj] + list(args), kwargs, None),
 }
+
+# ---- python_to_sdocs: how the settings reach the printers (C03 C10 C11 C13 C18) -----------------------------------------
+U.uninterpreted('PyVal')
+U.uninterpreted('DocV')
+U.uninterpreted('SDocsV')
+U.uninterpreted('FloatV')
+U.declare({'OptDepth': ('data', [('NoDepth', []), ('SomeDepth', [('v', 'Int')])])})
+U.options['OptDepth'] = 'Int'
+
+
+@C.spec([('value', 'PyVal'), ('ctx', 'Ctx')], 'DocV', opaque=True)
+def doc_of(value, ctx):
+    """pretty_python_value(value, ctx)"""
+    return None
+
+
+@C.spec([('d', 'DocV')], 'DocV', opaque=True)
+def top_comment(d):
+    """the top-level wrapper of a commented document (comment at the end of the line, or above the value)"""
+    return None
+
+
+@C.spec([('d', 'DocV')], 'Bool', opaque=True)
+def commented(d):
+    return True
+
+
+@C.spec([('d', 'DocV'), ('width', 'Int'), ('frac', 'FloatV')], 'SDocsV', opaque=True)
+def smart_layout(d, width, frac):
+    """layout_smart(d, width=width, ribbon_frac=frac)"""
+    return None
+
+
+@C.spec([('ribbon_width', 'Int'), ('width', 'Int')], 'FloatV', opaque=True)
+def frac_of(ribbon_width, width):
+    """min(1.0, ribbon_width / width)"""
+    return None
+
+
+def _ppv(I, args, kwargs, node):
+    if len(args) != 1 or set(kwargs) != {'ctx'}:
+        raise OutsideSubset('pretty_python_value call shape')
+    return I.call_spec(C.specs['doc_of'], [I.coerce(args[0], 'PyVal'), I.coerce(kwargs['ctx'], 'Ctx')], {})
+
+
+def _is_commented(I, args, kwargs, node):
+    return I.call_spec(C.specs['commented'], [args[0]], {})
+
+
+def _layout_smart(I, args, kwargs, node):
+    if len(args) != 1 or set(kwargs) != {'width', 'ribbon_frac'}:
+        raise OutsideSubset('layout_smart call shape')
+    return I.call_spec(C.specs['smart_layout'], [args[0], I.coerce(kwargs['width'], 'Int'), kwargs['ribbon_frac']], {})
+
+
+def _top_wrapper(I, args, kwargs, node):
+    """group(flat_choice(when_flat=concat([doc, '  ', commentdoc(c)]), when_broken=concat([commentdoc(c), HARDLINE, doc]))): the
+    builders are external here; the wrapper is a function of the commented document"""
+    return ('opaque', 'docbuild', args, tuple(sorted(kwargs.items(), key=lambda kv: kv[0])))
+
+
+def _group(I, args, kwargs, node):
+    # the only group built in python_to_sdocs: the top-level comment wrapper around `doc`
+    return I.call_spec(C.specs['top_comment'], [I.env['doc']], {})
+
+
+_float_inf = z3.Const('FLOAT_INF_DEPTH', U.sort('Depth'))
+
+
+def _b_float(I, args, kwargs, node):
+    if I.U is U and args == ['inf']:
+        return U.ctor('Depth', 'Inf')()
+    raise OutsideSubset('float() call')
+
+
+_prev_float = _interp.BUILTINS.get('float')
+_interp.BUILTINS['float'] = lambda I, a, k, n: _b_float(I, a, k, n) if (I.U is U or _prev_float is None) else _prev_float(I, a, k, n)
+_prev_min = _interp.BUILTINS.get('min')
+
+
+def _b_min(I, args, kwargs, node):
+    if I.U is U and len(args) == 2 and isinstance(args[1], tuple) and args[1][:1] == ('ratio',):
+        return I.call_spec(C.specs['frac_of'], [args[1][1], args[1][2]], {})
+    return _prev_min(I, args, kwargs, node)
+
+
+_interp.BUILTINS['min'] = _b_min
+_prev_binop = U.binop_hook
+
+
+def _binop2(I, op, a, b):
+    if isinstance(op, ast.Div) and is_z3(a) and is_z3(b) and I.sort_of(a) == 'Int' and I.sort_of(b) == 'Int':
+        return ('ratio', a, b)
+    return _prev_binop(I, op, a, b)
+
+
+U.binop_hook = _binop2
+C.extern = getattr(C, 'extern', {})
+C.extern[PP] = {
+    'pretty_python_value': FuncVal('hook', 'pretty_python_value', _ppv),
+    'is_commented': FuncVal('hook', 'is_commented', _is_commented),
+    'layout_smart': FuncVal('hook', 'layout_smart', _layout_smart),
+    'group': FuncVal('hook', 'group', _group),
+    'flat_choice': FuncVal('hook', 'flat_choice', _top_wrapper),
+    'concat': FuncVal('hook', 'concat', _top_wrapper),
+    'commentdoc': FuncVal('hook', 'commentdoc', _top_wrapper),
+}
+U.consts['HARDLINE'] = z3.Const('HARDLINE_DOC', U.sort('DocV'))
+
+
+def _opaque_attr2(I, obj, attr):
+    if obj[1] == 'type' and attr == '__slots__':
+        return SLOTS
+    raise OutsideSubset('attribute %s of %r' % (attr, obj[1]))
+
+
+def _docv_attr(I, base):
+    return ('opaque', 'annotation', base)
+
+
+U.attr_hooks = dict(getattr(U, 'attr_hooks', {}))
+U.attr_hooks[('DocV', 'annotation')] = _docv_attr
+_prev_opaque_attr = U.opaque_attr
+
+
+def _opaque_attr3(I, obj, attr):
+    if obj[1] == 'annotation' and attr == 'value':
+        return ('opaque', 'comment-text', obj[2])
+    return _prev_opaque_attr(I, obj, attr)
+
+
+U.opaque_attr = _opaque_attr3
+
+_CTX0 = ('Ctx(indent, (Inf if depth is None else Fin(unwrap(depth))), newvisited_, MULTILINE_STRATEGY_PLAIN, max_seq_len, sort_dict_keys, '
+         'newuserctx_)')
+_p2s = C.contract(
+    PP, 'python_to_sdocs',
+    params={'value': 'PyVal', 'indent': 'Int', 'width': 'Int', 'depth': 'OptDepth', 'ribbon_width': 'Int', 'max_seq_len': 'OptInt',
+            'sort_dict_keys': 'Bool'},
+    returns='SDocsV',
+    ghost={'newvisited_': ('SetRef', 'GHOST_SET'), 'newuserctx_': ('MapVal', 'GHOST_MAP')},
+    ensures=[('settings-reach-the-printers-unchanged',
+              'result == smart_layout((top_comment(doc_of(value, %s)) if commented(doc_of(value, %s)) else doc_of(value, %s)), '
+              'width, frac_of(ribbon_width, width))' % (_CTX0, _CTX0, _CTX0)),
+             ('fresh-visited-set', 'fresh_set(newvisited_)')],
+    serves=['C03', 'C10', 'C11', 'C13', 'C18'],
+    note='width and ribbon_width reach only the layout call; indent, depth (None = unlimited), max_seq_len and sort_dict_keys reach the '
+         'printers through the initial context exactly as given; every call starts with a new visited set')
+def _optdepth_to_depth(I, v):
+    """an int depth used as depth_left (None has been replaced by inf before)"""
+    some = U.is_('OptDepth', 'SomeDepth', v)
+    if not I.pure and not I.choose_bool(some, '@depth is an int'):
+        raise SymRaise('TypeError', 'None as depth_left')
+    return U.ctor('Depth', 'Fin')(U.acc('OptDepth', 'SomeDepth', 'v')(v))
+
+
+U.coerce_hooks = {('OptDepth', 'Depth'): _optdepth_to_depth}
+U.consts['GHOST_SET'] = z3.Const('GHOST_SET', U.sort('SetRef'))
+U.consts['GHOST_MAP'] = z3.Const('GHOST_MAP', U.sort('MapVal'))
+U.consts['Inf'] = U.ctor('Depth', 'Inf')()
+U.classmap['Fin'] = ('Depth', 'Fin')
 
 C.assume('a falsy user_ctx ({} or None) is replaced by a new empty dict by the constructor: equality of user_ctx is only claimed '
          'for a truthy one; the identity of dict objects is not modelled')
